@@ -83,13 +83,21 @@ def _spec(draw):
         val = ["Obj", draw(st.sampled_from(["heapint", "heapstr"]))]
     else:  # $
         flags, width, prec = "", None, None
-        kind = draw(st.sampled_from(["Int", "Float", "String", "Array", "List", "Tuple", "Table", "Tree"]))
+        kind = draw(st.sampled_from(["Int", "Float", "String", "Array", "List", "Tuple", "Table", "Tree", "Type", "Ref", "Box", "Range", "Slice"]))
         if kind == "Int":
             val = ["Int", "i:%d" % draw(gen.ints())]
         elif kind == "Float":
             val = ["Float", "f:%016x" % gen.f2b(draw(gen.floats()))]
         elif kind == "String":
             val = ["String", "s:" + draw(st.one_of(gen.cbytes(12), st.sampled_from([b"a\"b", b"\\n\n", b"\t'?\x07\x08\x0c\r\x0b", b"%$"]))).hex()]
+        elif kind == "Type":
+            val = ["Type", draw(st.sampled_from(["Int", "Float", "String", "Array", "Table", "Type", "Ref", "IndexOutOfBoundsError", "Blob", "_"]))]
+        elif kind in ("Ref", "Box"):
+            val = [kind, "i:%d" % draw(st.integers(-99, 99))]
+        elif kind == "Range":
+            val = ["Range", draw(st.integers(0, 5))]
+        elif kind == "Slice":
+            val = ["Slice", draw(st.lists(st.integers(-50, 50), max_size=5)), draw(st.integers(0, 5))]
         elif kind in ("Array", "List", "Tuple"):
             et = draw(st.sampled_from(["Int", "String"]))
             items = draw(st.lists(st.integers(-50, 50).map(lambda v: "i:%d" % v) if et == "Int"
@@ -215,6 +223,24 @@ def run_case(ctx, case):
                         return None
                     P.add("fwdkv %%%d" % s, grab)
                 a = "%%%d" % s
+            elif conv == "$" and val[0] == "Type":
+                a = "t:" + val[1] if val[1] != "_" else "_"
+            elif conv == "$" and val[0] in ("Ref", "Box"):
+                slot[0] += 2
+                P.add("new %%%d heap t:Int %s" % (slot[0] - 1, val[1]))
+                P.add("new %%%d heap t:%s %%%d" % (slot[0], val[0], slot[0] - 1))
+                if val[0] == "Box":
+                    P.add("zero %%%d" % (slot[0] - 1))       # the Box owns it now
+                a = "%%%d" % slot[0]
+            elif conv == "$" and val[0] == "Slice":
+                slot[0] += 2
+                P.add("new %%%d heap t:Array t:Int %s" % (slot[0] - 1, " ".join("i:%d" % x for x in val[1])))
+                P.add("new %%%d heap t:Slice %%%d i:%d _" % (slot[0], slot[0] - 1, min(val[2], len(val[1]))))
+                a = "%%%d" % slot[0]
+            elif conv == "$" and val[0] == "Range":
+                slot[0] += 1
+                P.add("new %%%d heap t:Range i:%d" % (slot[0], val[1]))
+                a = "%%%d" % slot[0]
             elif case.get("share") and val[0] in ("Int", "Float", "String") and conv != "c":
                 keyv = (val[0], val[1])
                 if keyv not in shared:
@@ -234,6 +260,16 @@ def run_case(ctx, case):
                     expect_parts.append(("ref", key))
                 elif val[0] == "String":
                     expect_parts.append(show_string(bytes.fromhex(val[1][2:])))
+                elif val[0] == "Type":
+                    expect_parts.append(val[1].encode())
+                elif val[0] == "Ref":            # a type without a Show instance: the generic text
+                    expect_parts.append(("regex", b"<'Ref' At [0-9a-zA-Z()x]+>"))
+                elif val[0] == "Box":
+                    expect_parts.append(("regex", b"<'Box' at [0-9a-zA-Z()x]+ \\(" + _re_escape(b"%d" % int(val[1][2:])) + b"\\)>"))
+                elif val[0] == "Slice":
+                    expect_parts.append(("regex", b"<'Slice' At [0-9a-zA-Z()x]+ \\[" + b", ".join(_re_escape(b"%d" % i) for i in val[1][min(val[2], len(val[1])):]) + b"\\]>"))
+                elif val[0] == "Range":
+                    expect_parts.append(("regex", b"<'Range' At [0-9a-zA-Z()x]+ \\[" + b", ".join(b"%d" % i for i in range(val[1])) + b"\\]>"))
                 elif val[0] in ("Array", "List", "Tuple"):
                     def el(x):
                         return b"%d" % int(x[2:]) if x[0] == "i" else show_string(bytes.fromhex(x[2:]))
